@@ -64,15 +64,25 @@ def run(ck):
         iff = next((n for n in walk(cn['body']) if n.get('k') == 'If'), None)
         ok = False
         why = 'no if found'
-        if iff is not None and 'els' in iff:
+        sp = next((c for c in H.calls_in(cn['body']) if c.get('m') == 'strip_prefix' and isinstance(H.lit_value(c['args'][0]), str)), None)
+        if sp is not None and iff is not None and 'els' in iff:
+            # let rest = name.strip_prefix("on")?; if rest.starts_with(upper) { Some(uncapitalised(rest)) } else { None }
+            lit = H.lit_value(sp['args'][0])
+            rb = next((b for b in H.binding_sites(cn).values() if b['kind'] in ('let', 'letcond', 'arm') and any(x is sp for x in walk(b['node'].get('init') or b['node'].get('e') or {'k': 'x'}))), None)
+            sw = [c for c in H.calls_in(iff['c']) if c.get('m') == 'starts_with']
+            somes = [v for v in H.value_exprs(iff['then']) if v.get('k') == 'Call' and (v.get('def') or '').endswith('Option::Some')]
+            nones = [v for v in H.value_exprs(iff['els']) if pp(v) == 'None']
+            on_rest = rb is not None and len(sw) == 1 and (H.root_local(sw[0]['recv']) or {}).get('hid') == rb['bind']['hid'] and 'is_ascii_uppercase' in pp(sw[0]['args'][0], maxlen=80)
+            unc = bool(somes) and any(H.is_call_to(c, 'to_ascii_uncapitalized') and (H.root_local(c['args'][0]) or {}).get('hid') == (rb or {'bind': {}})['bind'].get('hid') for c in H.calls_in(somes[0]))
+            ok = lit == 'on' and on_rest and unc and bool(nones) and not [n for n in walk(cn['body']) if n.get('k') == 'Index']
+            why = 'rest = name.strip_prefix(%r)?; rest starts upper-case => Some(uncapitalised(rest)), else None' % lit
+        elif iff is not None and 'els' in iff:
             sw = [c for c in H.calls_in(iff['c']) if c.get('m') == 'starts_with']
             lit = next((H.lit_value(c['args'][0]) for c in sw if isinstance(H.lit_value(c['args'][0]), str)), None)
             slices = [n for n in walk(cn['body']) if n.get('k') == 'Index']
             starts = set()
-            for s in slices:
-                r = s['i']
-                st = r.get('start') if isinstance(r, dict) and 'start' in r else None
-                txt = pp(r, maxlen=40)
+            for s_ in slices:
+                txt = pp(s_['i'], maxlen=40)
                 mm = re.search(r'(\d+)\s*\.\.|start:\s*(\d+)', txt)
                 if mm:
                     starts.add(int(mm.group(1) or mm.group(2)))
